@@ -231,6 +231,16 @@ Definition dispatch_hash (c : mcfg) (op : tok) (args : list tok) : option (list 
         end
     | _ => Some bad
     end
+  else if is_sym op "valid" then
+    match args with
+    | [vt; TB bin] =>
+        match variant_of vt with
+        | Some v => Some (with_hash c v bin (fun h =>
+                      [TN (if checksum_is_valid v (h_cks h) then 1 else 0); TN (if is_valid (h_len h) then 1 else 0)]))
+        | _ => Some bad
+        end
+    | _ => Some bad
+    end
   else if is_sym op "consts" then
     match args with
     | [vt] =>
